@@ -563,6 +563,18 @@ impl FuChecker {
                 v.push(FuOp::Advance { secs: DAY });
                 v.push(FuOp::Claim { u: A, until: None });
             }
+            "F12" => {
+                // the LP token is at its limit of concurrent farms (2) and every farm ever created had an explicit identifier
+                v.push(pos(A, 0, 1000, DAY));
+                v.push(farm_op(fee, C, 0, Some(1), Some(5), ("uusdc", 4000), Some("k1")));
+                v.push(farm_op(fee, OWNER, 0, Some(1), Some(5), ("uusdc", 4000), Some("k2")));
+            }
+            "F13" => {
+                // F2, then 45 days without any interaction: the farm ended more than the expiration time ago, nobody closed it,
+                // and both stakers still have all of its epochs to claim
+                v = self.seed_ops("F2");
+                v.push(FuOp::Advance { secs: 45 * DAY });
+            }
             "F6" => {
                 // more farms on one LP token than one page of the farm listing (needs max_concurrent_farms >= 12)
                 v.push(pos(A, 0, 1000, DAY));
@@ -682,6 +694,10 @@ pub fn enabled(c: &FuChecker, w: &World, pre: &FuObs, g: &FuGhost) -> Vec<FuOp> 
                 ops.push(FuOp::WithdrawPos { u, id: p.identifier.clone(), emergency: Some(true) });
                 if !p.open || a == FAlpha::Full {
                     ops.push(FuOp::WithdrawPos { u, id: p.identifier.clone(), emergency: None });
+                }
+                if !p.open && matches!(a, FAlpha::Full | FAlpha::Positions) {
+                    // the same normal withdrawal with the flag spelled out
+                    ops.push(FuOp::WithdrawPos { u, id: p.identifier.clone(), emergency: Some(false) });
                 }
                 if matches!(a, FAlpha::Full | FAlpha::Positions) {
                     if let Some(bare) = p.identifier.strip_prefix("u-") {
@@ -824,6 +840,9 @@ pub fn enabled(c: &FuChecker, w: &World, pre: &FuObs, g: &FuGhost) -> Vec<FuOp> 
                 ops.push(FuOp::ExpandFarm { u: owner, id: f.identifier.clone(), lp: li, reward: (rd_name.clone(), 2 * rate), funds: vec![(rd_name.clone(), 2 * rate)] });
                 ops.push(FuOp::ExpandFarm { u: owner, id: f.identifier.clone(), lp: li, reward: (rd_name.clone(), rate + 1), funds: vec![(rd_name.clone(), rate + 1)] });
                 ops.push(FuOp::ExpandFarm { u: A, id: f.identifier.clone(), lp: li, reward: (rd_name.clone(), rate), funds: vec![(rd_name.clone(), rate)] });
+                // the declared amount differs from the coin attached (more, and less)
+                ops.push(FuOp::ExpandFarm { u: owner, id: f.identifier.clone(), lp: li, reward: (rd_name.clone(), 4 * rate), funds: vec![(rd_name.clone(), rate)] });
+                ops.push(FuOp::ExpandFarm { u: owner, id: f.identifier.clone(), lp: li, reward: (rd_name.clone(), rate), funds: vec![(rd_name.clone(), 2 * rate)] });
                 // expansion in another denom than the farm's reward
                 let other = if rd_name == "uom" { "uusdc".to_string() } else { "uom".to_string() };
                 ops.push(FuOp::ExpandFarm { u: owner, id: f.identifier.clone(), lp: li, reward: (other.clone(), rate), funds: vec![(other, rate)] });
